@@ -772,6 +772,9 @@ def truncate_raggedarray(ra, index):
     # FIXME allow for numpy ints
     if not isinstance(index, int):
         raise TypeError(f"'index' should be an int (is {type(index)})")
+    if not ra.accessmode == 'r+':
+        raise OSError('Darr ragged array is read-only; set accessmode to '
+                      '"r+" to change')
     with ra._indices._open_array() as (mmap, _):
         newlen = len(mmap[:index])
     del mmap
